@@ -302,9 +302,9 @@ func peerOf(n *node.Node) (*p2p.AddrInfo, error) {
 
 // evil peer: serves an honest node's chain with one tampering
 type evil struct {
-	conn  *p2p.Connection
-	src   *node.Node
-	mode     string
+	conn      *p2p.Connection
+	src       *node.Node
+	mode      string
 	calls     atomic.Int32
 	tampered  atomic.Int32
 	servedTip atomic.Bool
